@@ -603,6 +603,26 @@ def find_isometry(form, partial_map, force_oriented=False):
     orth_kernel = np.where(definite[..., np.newaxis, np.newaxis],
                            gram_schmidt, diagonalized)
 
+    # the rows found above have their negative norms first. Reorder
+    # them so that the signs of their norms follow the remaining
+    # diagonal entries of the form, whenever the signature of the form
+    # on the complement allows it. Then for a diagonal form with
+    # entries +-1 in any order (not just negative-first), the result
+    # preserves the form if the partial frame does.
+    num_partial = orth_partial.shape[-2]
+    form_signs = np.sign(np.diagonal(form)[num_partial:].astype('float64'))
+    row_signs = np.sign(normsq(orth_kernel, form).astype('float64'))
+
+    order = np.argsort(row_signs, axis=-1, kind="stable")
+    reordered = np.empty_like(order)
+    reordered[..., np.argsort(form_signs, kind="stable")] = order
+
+    compatible = np.all(np.sort(row_signs, axis=-1) == np.sort(form_signs),
+                        axis=-1, keepdims=True)
+    order = np.where(compatible, reordered, np.arange(order.shape[-1]))
+    orth_kernel = np.take_along_axis(orth_kernel, order[..., np.newaxis],
+                                     axis=-2)
+
     iso = np.concatenate([orth_partial, orth_kernel], axis=-2)
 
     if force_oriented:
